@@ -200,13 +200,22 @@ def fast_csv_reader(source: Union[str, StringIO],
     cur_cell_char_count = np.int64(0)
     cur_cell_start = column_inds[col_index, row_index] if row_index >= 0 else np.int64(0)
     
-    index_for_cur_cell_start = np.int64(0)
-
     is_column_inds_full = False
     is_column_vals_full = False
 
     col_offset = np.int64(0)
     col_val_count = column_offsets[1]
+
+    # a call starts at the beginning of a record: skip the blanks in front of its first cell, exactly as the loop
+    # below does after every other line break, so that the result does not depend on where a chunk starts
+    while index < len(source) and source[index] == whitespace_value:
+        index += 1
+    if index == len(source):
+        # only blanks are left (or nothing: the caller resumed exactly at the end of the window): no record starts here
+        return np.int64(start_index), row_index, is_column_inds_full, is_column_vals_full, val_full_col_idx
+
+    # the first cell of this call starts here (a double quote at this position opens an escaped cell)
+    index_for_cur_cell_start = index
 
     while True:
         write_char = False
